@@ -334,7 +334,7 @@ fn templates(rng: &mut Rng, thorough: bool) -> Vec<(Cfg, Vec<Step>)> {
     // 6: a young tower: appointments accepted before the first new block is processed (F18)
     v.push((cfg, vec![reg(0), Step::Add(0, 1, 1, 101, 0), Step::Mine(vec![1]), Step::Mine(vec![]), Step::Poll, Step::Mine(vec![]), Step::Poll]));
     // random histories
-    let n = if thorough { 24 } else { 5 };
+    let n = if thorough { 1200 } else { 5 };
     for _ in 0..n {
         let mut s = vec![reg(0), reg(1)];
         let mut next_pen = 110u64;
@@ -608,7 +608,7 @@ fn run(hist: usize, cfg: Cfg, steps: &[Step], crash_at: Option<u64>, skip: Optio
 fn main() {
     let args: Vec<String> = std::env::args().collect();
     if args.len() < 2 {
-        eprintln!("usage: crash <out-file> [shard nshards]");
+        eprintln!("usage: crash <out-file> [shard nshards | case <history> <crash point>]");
         std::process::exit(2);
     }
     let shard: u64 = args.get(2).and_then(|s| s.parse().ok()).unwrap_or(0);
@@ -621,9 +621,24 @@ fn main() {
     let mut rng = Rng::new(seed ^ 0xC03);
     let mut out = std::io::BufWriter::new(std::fs::File::create(&args[1]).unwrap());
     let ts = templates(&mut rng, thorough);
+    // `crash <out> case <hist> <crash point>`: only that history's reference runs and that one crash run
+    let only: Option<(usize, u64)> = if args.get(2).map(|s| s == "case").unwrap_or(false) {
+        Some((args[3].parse().expect("history"), args[4].parse().expect("crash point")))
+    } else {
+        None
+    };
     for (h, (cfg, steps)) in ts.iter().enumerate() {
-        if h as u64 % nshards != shard {
-            continue;
+        match only {
+            Some((oh, _)) => {
+                if oh != h {
+                    continue;
+                }
+            }
+            None => {
+                if h as u64 % nshards != shard {
+                    continue;
+                }
+            }
         }
         let n = run(h, *cfg, steps, None, None, None, &init, &mut out);
         // the same history without each API request (the oracle for a request lost in a crash); when blocks
@@ -644,6 +659,10 @@ fn main() {
             }
         }
         // every crash point of the history; template 4 has thousands of identical ones: sample its middle
+        if let Some((_, oc)) = only {
+            run(h, *cfg, steps, Some(oc), None, None, &init, &mut out);
+            continue;
+        }
         let stride = if n > 400 && !thorough { (n / 200).max(1) } else { 1 };
         let mut c = 0;
         while c < n {
